@@ -269,6 +269,10 @@ struct World {
     folders: Vec<VaultId>,
     default_folder: VaultId,
     secrets: BTreeMap<SecretId, FileSecret>,
+    /// secrets whose blob was (re)written since the last decrypt check, per device
+    /// (decrypting costs one scrypt run, so only touched blobs are decrypted)
+    dirty1: BTreeSet<SecretId>,
+    dirty2: BTreeSet<SecretId>,
     log: Vec<String>,
     tmp: PathBuf,
     max_bytes: usize,
@@ -331,6 +335,8 @@ impl World {
                 let ch = r.map_err(|e| format!("create_secret: {e}"))?;
                 self.log.push(format!("create file secret {} in {f} ({} bytes)", ch.id, plain.len()));
                 self.secrets.insert(ch.id, FileSecret { folder: f, plain });
+                self.dirty1.insert(ch.id);
+                self.dirty2.insert(ch.id);
                 Ok("create")
             }
             1 => {
@@ -349,6 +355,8 @@ impl World {
                     self.secrets.remove(&id);
                 }
                 self.secrets.insert(ch.id, FileSecret { folder: f, plain });
+                self.dirty1.insert(ch.id);
+                self.dirty2.insert(ch.id);
                 Ok("update")
             }
             2 => {
@@ -361,6 +369,8 @@ impl World {
                 let mut fs = self.secrets.remove(&id).unwrap();
                 fs.folder = to;
                 self.secrets.insert(mv.id, fs);
+                // a moved blob is byte-identical (name == sha256 is checked): decrypt it on device 2 only
+                self.dirty2.insert(mv.id);
                 Ok("move")
             }
             3 => {
@@ -390,7 +400,7 @@ impl World {
     }
 
     /// The invariant on the editing device, after every operation.
-    async fn check_device1(&self, rep: &mut Reporter, ctx: &Value) {
+    async fn check_device1(&mut self, rep: &mut Reporter, ctx: &Value) {
         let from_log: BTreeSet<Key> = match self.d1.account.canonical_files().await {
             Ok(s) => s.iter().map(key_of).collect(),
             Err(e) => {
@@ -412,11 +422,13 @@ impl World {
             }
             Err(e) => rep.violation("C17:secret_readback:device1", &e, ctx.clone()),
         }
-        self.check_decrypt(rep, &self.d1, ctx).await;
+        let ids: Vec<SecretId> = std::mem::take(&mut self.dirty1).into_iter().collect();
+        self.check_decrypt(rep, &self.d1, ctx, &ids).await;
     }
 
-    async fn check_decrypt(&self, rep: &mut Reporter, dev: &Dev, ctx: &Value) {
-        for (id, fs) in &self.secrets {
+    async fn check_decrypt(&self, rep: &mut Reporter, dev: &Dev, ctx: &Value, ids: &[SecretId]) {
+        for id in ids {
+            let Some(fs) = self.secrets.get(id) else { continue };
             let (row, _) = match dev.account.read_secret(id, Some(&fs.folder)).await {
                 Ok(r) => r,
                 Err(e) => {
@@ -439,7 +451,7 @@ impl World {
     }
 
     /// Let transfers settle, then check the server and device 2.
-    async fn sync_point(&self, rep: &mut Reporter, ctx: &Value, polls: usize) {
+    async fn sync_point(&mut self, rep: &mut Reporter, ctx: &Value, polls: usize) {
         rep.count("sync_points", 1);
         let dbg = std::env::var("C17_DEBUG").is_ok();
         if dbg {
@@ -522,8 +534,12 @@ impl World {
         c["transfers"] = json!(self.d2.tally_text());
         let equal = judge_listing(rep, "device2", "file_log", &listing, &expected2, &c, true);
         judge_names(rep, "device2", &listing, &c);
-        if equal {
-            self.check_decrypt(rep, &self.d2, &c).await;
+        let _ = equal;
+        {
+            // at most two decrypts per sync point (one scrypt run each)
+            let ids: Vec<SecretId> = self.dirty2.iter().copied().filter(|i| self.secrets.contains_key(i)).take(2).collect();
+            self.check_decrypt(rep, &self.d2, &c, &ids).await;
+            self.dirty2.clear();
         }
     }
 }
@@ -771,8 +787,8 @@ async fn history(args: &Args, rep: &mut Reporter, rng: &mut Rng, base: &Path, p:
     let default_folder = *d1.account.default_folder().await.ok_or_else(|| anyhow::anyhow!("no default folder"))?.id();
     let tmp = dir.join("tmp");
     std::fs::create_dir_all(&tmp)?;
-    let mut w = World { server, account_id: p.account_id, d1, d2, folders: vec![default_folder], default_folder, secrets: BTreeMap::new(), log: vec![], tmp, max_bytes: args.by_tier(200_000, 2_000_000) };
-    let n_ops = args.by_tier(10usize, 24usize);
+    let mut w = World { server, account_id: p.account_id, d1, d2, folders: vec![default_folder], default_folder, secrets: BTreeMap::new(), dirty1: BTreeSet::new(), dirty2: BTreeSet::new(), log: vec![], tmp, max_bytes: args.by_tier(200_000, 2_000_000) };
+    let n_ops = args.by_tier(8usize, 24usize);
     let polls = args.by_tier(400usize, 1200usize);
     let mut kinds: BTreeSet<&'static str> = BTreeSet::new();
     for step in 0..n_ops {
@@ -831,7 +847,7 @@ pub async fn run(args: &Args, rep: &mut Reporter) {
         rep.inconclusive(&format!("cannot create scratch dir: {e}"));
         return;
     }
-    let budget = if args.budget_s > 0 { args.budget_s as f64 } else { args.by_tier(70.0, 780.0) };
+    let budget = if args.budget_s > 0 { args.budget_s as f64 } else { args.by_tier(75.0, 780.0) };
     let max_histories = args.by_tier(6usize, 400usize);
     let client_backends: Vec<Backend> = if args.thorough() { vec![Backend::Fs, Backend::Db] } else { vec![Backend::Fs] };
     let mut pristines = vec![];
@@ -848,7 +864,7 @@ pub async fn run(args: &Args, rep: &mut Reporter) {
     let mut durations: Vec<f64> = vec![];
     for hix in 0..max_histories {
         let longest = durations.iter().cloned().fold(0.0, f64::max);
-        if rep.elapsed_s() + longest * 1.2 > budget && hix > 0 {
+        if rep.elapsed_s() + longest > budget && hix > 0 {
             break;
         }
         let t0 = rep.elapsed_s();
